@@ -19,8 +19,8 @@ rm -rf "$C"; mkdir -p "$C"; (cd /repo && git archive HEAD) | tar -x -C "$C"
 (cd "$C" && git init -q && git add -A >/dev/null 2>&1 && git -c user.email=x@x -c user.name=x commit -qm base >/dev/null)
 for d in seeded/micro-refactors/*.diff; do
   git -C "$C" checkout -q -- .; git -C "$C" apply "$(pwd)/$d" || { echo "$d: does not apply"; continue; }
-  /venv/bin/python tools/extract.py --repo "$C" --out lean/AioMySensors/Generated/Tables.lean --json /dev/null >/dev/null 2>&1
-  t=$(/venv/bin/python tools/translate.py --repo "$C" $OUTS --snapshot tools/bodies_snapshot.json --json /dev/null | cut -c1-140)
+  /venv/bin/python tools/extract.py --repo "$C" --out lean/AioMySensors/Generated/Tables.lean --json "${TMPDIR:-/tmp}/eval_micro_json.$$" >/dev/null 2>&1
+  t=$(/venv/bin/python tools/translate.py --repo "$C" $OUTS --snapshot tools/bodies_snapshot.json --json "${TMPDIR:-/tmp}/eval_micro_json.$$" | cut -c1-140)
   x=$(xtranslate "$C")
   if (cd lean && lake build $MODS $XMODS >/tmp/micro.log 2>&1); then r="equalities hold"; else r="EQUALITY BROKEN: $(grep -m2 'error:' /tmp/micro.log | tr '\n' ' ' | cut -c1-200)"; fi
   echo "$(basename "$d" .diff): $t | $x-> $r"
